@@ -971,7 +971,12 @@ impl TypeChecker {
                                     .into(),
                             )?;
                     }
-                    value
+                    // A branch without a value leaves nothing to use - the whole expression is void then.
+                    if value.is_some() && tys.iter().any(|(_, _, branch_value)| branch_value.is_none()) {
+                        Some(self.push_type(Type::Void))
+                    } else {
+                        value
+                    }
                 };
                 with_ret(
                     ret,
@@ -985,6 +990,8 @@ impl TypeChecker {
 
                 let mut ret = ret;
                 let mut value = None;
+                // A branch without a value leaves nothing to use - the whole expression is void then.
+                let mut valueless = false;
                 let mut branch_names = BTreeSet::new();
                 for branch in branches.iter() {
                     let name = branch.pattern.name.clone();
@@ -999,6 +1006,7 @@ impl TypeChecker {
                     // `self.expression_block`.
                     self.check_constraints(*span, ctx, to_match)?;
                     let (branch_ret, branch) = self.expression_block(*span, &branch.body, ctx)?;
+                    valueless |= branch.is_none();
                     value = self.unify_option(*span, ctx, value, branch)?;
                     ret = self.unify_option(*span, ctx, ret, branch_ret)?;
                     branch_names.insert(name.clone());
@@ -1007,10 +1015,14 @@ impl TypeChecker {
                 if let Some(fall_through) = fall_through {
                     let (fall_ret, fall) = self.expression_block(*span, fall_through, ctx)?;
                     ret = self.unify_option(*span, ctx, fall_ret, ret)?;
+                    valueless |= fall.is_none();
                     value = self.unify_option(*span, ctx, fall, value)?;
                 } else {
                     self.add_constraint(to_match, *span, Constraint::TotalEnum(branch_names));
                     self.check_constraints(*span, ctx, to_match)?;
+                }
+                if value.is_some() && valueless {
+                    value = Some(self.push_type(Type::Void));
                 }
                 with_ret(
                     ret,
